@@ -204,6 +204,8 @@ theorem agrees_step (st : St) (h : List Ev) (e : Ev) (ha : Agrees st h) :
     · rw [startedAfter_snoc]; simpa [step] using hl
   | selfact q b =>
     exact ⟨fun p => by rw [lastPost_snoc]; simpa [step] using hp p, by rw [startedAfter_snoc]; simpa [step] using hl⟩
+  | userop =>
+    exact ⟨fun p => by rw [lastPost_snoc]; simpa [step] using hp p, by rw [startedAfter_snoc]; simpa [step] using hl⟩
   | start => exact ⟨fun p => by rw [lastPost_snoc]; simpa [step] using hp p, by rw [startedAfter_snoc]; simp [step]⟩
   | stop => exact ⟨fun p => by rw [lastPost_snoc]; simpa [step] using hp p, by rw [startedAfter_snoc]; simp [step]⟩
   | takeover q a b =>
@@ -271,6 +273,7 @@ theorem delivered_sublist_gen (es : List Ev) : ∀ (st : St) (h : List Ev), Agre
         simp [step, hc]
     | start => simpa [step, plays] using ih'
     | selfact q b => simpa [step, plays] using ih'
+    | userop => simpa [step, plays] using ih'
     | stop => simpa [step, plays] using ih'
     | takeover q a b =>
       rw [step_out_nil st _ (by simp)]
@@ -416,6 +419,7 @@ theorem news_sublist_gen (k : Kind) (es : List Ev) : ∀ st : St,
       simpa [chgs, accepted] using ih'
     | start => simpa [step, chgs, accepted] using ih'
     | selfact q b => simpa [step, chgs, accepted] using ih'
+    | userop => simpa [step, chgs, accepted] using ih'
     | stop => simpa [step, chgs, accepted] using ih'
     | takeover q a b =>
       rw [step_out_nil st _ (by simp)]
@@ -475,6 +479,9 @@ theorem silent_gen (es : List Ev) : ∀ st : St, st.lst = false → playsQ st.qu
       rw [h2]; simp [step, plays]
     | selfact q b =>
       have h2 := ih (step st (.selfact q b)).1 (by simpa [step] using hl) (by simpa [step] using hq) hs'
+      rw [h2]; simp [step, plays]
+    | userop =>
+      have h2 := ih (step st .userop).1 (by simpa [step] using hl) (by simpa [step] using hq) hs'
       rw [h2]; simp [step, plays]
     | takeover q a b =>
       have h2 := ih (step st (.takeover q a b)).1 (by simp only [step]; split <;> simpa using hl)
@@ -582,6 +589,7 @@ theorem step_forget (st : St) (e : Ev) :
   | start => exact ⟨rfl, rfl⟩
   | stop => exact ⟨rfl, rfl⟩
   | selfact q b => exact ⟨rfl, rfl⟩
+  | userop => exact ⟨rfl, rfl⟩
 
 theorem step_selfact_forget (st : St) (p : Proto) (b : Bool) :
     (step st (.selfact p b)).1.forget = st.forget ∧ (step st (.selfact p b)).2 = [] := by
